@@ -29,7 +29,9 @@ OWNER = {
     "C06": {"StrictlyIncreasing", "InUnit", "EndsAtOneOrCap", "FixedExactlyN", "CapHonoured",
             "FloorHonoured", "NeverRaises"},
     "C07": {"AdaptiveMaximal"},
-    "C08": {"EvidenceTerms", "EvidenceSum", "ErrorIsRootSumVar", "EvidenceIndependent"},
+    "C08": {"EvidenceTerms", "EvidenceSum", "ErrorIsRootSumVar", "EvidenceIndependent",
+            # the terms are defined on the recorded populations and temperatures: the record they are recomputed from
+            "HistoryFaithful_populations", "HistoryFaithful_ratio", "HistoryFaithful_payload_pops"},
     "C09": {"ProbProportional", "NewBetaAndSize"},
     "C10": {"CachedCoherent", "InitialPopulation"},
     "C11": {"ResumeDeterministic"},
@@ -765,7 +767,8 @@ def corpus_file(tier, seed, rnd):
     # an earlier fit + run and a refit inside the same auto_checkpoint context precede the measured run
     for j, c in enumerate(list(cfgs)):
         if j % 2 == 0 and c.get("every") is not None:
-            cfgs.append(dict(c, ctx="refit", seed=c["seed"] + 1000, explicit_none=(j % 4 == 0)))
+            # (cadence 1 or 2: an interruption then finds a checkpoint of the measured run to resume from)
+            cfgs.append(dict(c, ctx="refit", seed=c["seed"] + 1000, explicit_none=(j % 4 == 0), every=[1, 2][(j // 2) % 2]))
     for c in cfgs:
         specs.append(_mk(k, "aspire_single", {"cfg": c})); k += 1
         wd = workdir("probe")
@@ -1313,7 +1316,9 @@ CHECKS = {
                 + [dict(x, id="f" + x["id"]) for x in corpus_file(t, s, r) if x["params"]["cfg"].get("ctx")][: (40 if t == "quick" else 600)],
                 e1=[e1_smcrun],
                 extra=lambda v, t, s: dict(__import__("e3_initialdraw").replay(v, t, s, "C10"), **reload_route(v, t, s))),
-    "C11": dict(corpus=corpus_resume, e1=[e1_smcrun]),
+    "C11": dict(corpus=lambda t, s, r: corpus_resume(t, s, r)
+                + [dict(x, id="f" + x["id"]) for x in corpus_file(t, s, r) if x["params"]["cfg"].get("ctx")][: (40 if t == "quick" else 600)],
+                e1=[e1_smcrun]),
     "C12": dict(corpus=lambda t, s, r: corpus_file(t, s, r) + [dict(x, id="r" + x["id"]) for x in corpus_resume(t, s, r)][: (150 if t == "quick" else 3000)],
                 e1=[e1_smcrun], extra=e3_blob),
     "C17": dict(corpus=lambda t, s, r: corpus_general(t, s, r) + corpus_calls(t, s, r)
